@@ -309,16 +309,22 @@ theorem parseItems_expanded (cv : Conv) (fmt : Bytes → Bytes) :
         simp
 
 /-- expanded spelling with the defaults pending at the end dropped. -/
-def xtrim (fmt : Bytes → Bytes) : Nat → Vals → List Bytes
-  | _, [] => []
+def xtrim (fmt : Bytes → Bytes) (flush : Bool) : Nat → Vals → List Bytes
+  | dc, [] => if flush then List.replicate dc oneStar else []
   | dc, p :: r =>
-    if p.2 = .deck then List.replicate dc oneStar ++ valTok fmt p.1 :: xtrim fmt 0 r
-    else xtrim fmt (dc + 1) r
+    if p.2 = .deck then List.replicate dc oneStar ++ valTok fmt p.1 :: xtrim fmt flush 0 r
+    else xtrim fmt flush (dc + 1) r
 
-/-- number of defaults pending at the end of the record (`default_count` at `end_record`). -/
-def pend : Nat → Vals → Nat
-  | dc, [] => dc
-  | dc, p :: r => if p.2 = .deck then pend 0 r else pend (dc + 1) r
+/-- number of defaults that are pending at `end_record` and dropped there. -/
+def pend (flush : Bool) : Nat → Vals → Nat
+  | dc, [] => if flush then 0 else dc
+  | dc, p :: r => if p.2 = .deck then pend flush 0 r else pend flush (dc + 1) r
+
+theorem pend_flush : ∀ (flat : Vals) (dc : Nat), pend true dc flat = 0 := by
+  intro flat
+  induction flat with
+  | nil => intro dc; rfl
+  | cons p r ih => intro dc; simp only [pend]; split <;> exact ih _
 
 theorem replicate_append_cons (n : Nat) (x : Bytes) (l : List Bytes) :
     List.replicate n x ++ x :: l = List.replicate (n + 1) x ++ l := by
@@ -326,12 +332,12 @@ theorem replicate_append_cons (n : Nat) (x : Bytes) (l : List Bytes) :
   | zero => rfl
   | succ n ih => simp only [List.replicate_succ, List.cons_append, ih]
 
-theorem expanded_eq_xtrim (fmt : Bytes → Bytes) : ∀ (flat : Vals) (dc : Nat),
+theorem expanded_eq_xtrim (fmt : Bytes → Bytes) (flush : Bool) : ∀ (flat : Vals) (dc : Nat),
     List.replicate dc oneStar ++ flat.map (tokOf fmt) =
-      xtrim fmt dc flat ++ List.replicate (pend dc flat) oneStar := by
+      xtrim fmt flush dc flat ++ List.replicate (pend flush dc flat) oneStar := by
   intro flat
   induction flat with
-  | nil => intro dc; simp [xtrim, pend]
+  | nil => intro dc; cases flush <;> simp [xtrim, pend]
   | cons p r ih =>
     intro dc
     by_cases hd : p.2 = .deck
@@ -344,13 +350,22 @@ theorem expanded_eq_xtrim (fmt : Bytes → Bytes) : ∀ (flat : Vals) (dc : Nat)
       exact ih (dc + 1)
 
 /-- Step 1: every pending-defaults token `n*` may be read as `n` times `1*`. -/
-theorem parseItems_emitToks_xtrim (cv : Conv) (fmt : Bytes → Bytes) (items : List Item)
+theorem parseItems_emitToks_xtrim (cv : Conv) (fmt : Bytes → Bytes) (flush : Bool) (items : List Item)
     (hraw : ∀ it ∈ items, it.raw = false) :
     ∀ (flat : Vals) (dc : Nat) (pre : List Bytes), dc + flat.length ≤ 2147483647 →
-      parseItems cv items (pre ++ emitToks fmt dc flat) = parseItems cv items (pre ++ xtrim fmt dc flat) := by
+      parseItems cv items (pre ++ emitToks fmt flush dc flat) = parseItems cv items (pre ++ xtrim fmt flush dc flat) := by
   intro flat
   induction flat with
-  | nil => intro dc pre _; rfl
+  | nil =>
+    intro dc pre hb
+    cases flush with
+    | false => simp [emitToks, xtrim]
+    | true =>
+      by_cases h0 : dc = 0
+      · subst h0; simp [emitToks, xtrim]
+      · have h2 := parseItems_starExp cv (starTok dc) (List.replicate dc oneStar)
+          (starExp_starTok dc (by omega) (by simp at hb; omega)) [] items hraw pre
+        simpa [emitToks, xtrim, h0] using h2
   | cons p r ih =>
     intro dc pre hb
     simp only [List.length_cons] at hb
@@ -367,7 +382,7 @@ theorem parseItems_emitToks_xtrim (cv : Conv) (fmt : Bytes → Bytes) (items : L
         simp only [List.append_assoc, List.cons_append, List.nil_append] at h1
         rw [h1]
         have h2 := parseItems_starExp cv (starTok dc) (List.replicate dc oneStar)
-          (starExp_starTok dc (by omega) (by omega)) (valTok fmt v :: xtrim fmt 0 r) items hraw pre
+          (starExp_starTok dc (by omega) (by omega)) (valTok fmt v :: xtrim fmt flush 0 r) items hraw pre
         simp only [List.append_assoc] at h2
         exact h2
     · simp only [emitToks, xtrim, hd, ↓reduceIte]
@@ -430,12 +445,23 @@ theorem conf_plain (cv : Conv) (fmt : Bytes → Bytes) : ∀ (items : List Item)
           exact hq.1
         · exact ih rs hrest p hp hd
 
-theorem xtrim_simple_weight (fmt : Bytes → Bytes) : ∀ (flat : Vals) (dc : Nat),
+theorem xtrim_simple_weight (fmt : Bytes → Bytes) (flush : Bool) : ∀ (flat : Vals) (dc : Nat),
     (∀ p ∈ flat, p.2 = .deck → classify (valTok fmt p.1) = .plain) →
-    (∀ t ∈ xtrim fmt dc flat, Simple t) ∧ totalWeight (xtrim fmt dc flat) + pend dc flat = dc + flat.length := by
+    (∀ t ∈ xtrim fmt flush dc flat, Simple t) ∧
+      totalWeight (xtrim fmt flush dc flat) + pend flush dc flat = dc + flat.length := by
   intro flat
   induction flat with
-  | nil => intro dc _; simp [xtrim, pend, totalWeight]
+  | nil =>
+    intro dc _
+    cases flush with
+    | false => simp [xtrim, pend, totalWeight]
+    | true =>
+      refine ⟨?_, ?_⟩
+      · intro t ht
+        simp only [xtrim, ↓reduceIte] at ht
+        rw [(List.mem_replicate.mp ht).2]; exact simple_oneStar
+      · simp only [xtrim, pend, ↓reduceIte, List.length_nil]
+        rw [totalWeight_replicate _ _ weight_oneStar]
   | cons p r ih =>
     intro dc h
     have hr : ∀ q ∈ r, q.2 = .deck → classify (valTok fmt q.1) = .plain := fun q hq => h q (by simp [hq])
@@ -452,7 +478,7 @@ theorem xtrim_simple_weight (fmt : Bytes → Bytes) : ∀ (flat : Vals) (dc : Na
           · exact hs t ht
       · rw [totalWeight_append, totalWeight_replicate _ _ weight_oneStar]
         have hw1 : weight (valTok fmt p.1) = 1 := by unfold weight; rw [hp]
-        have : totalWeight (valTok fmt p.1 :: xtrim fmt 0 r) = 1 + totalWeight (xtrim fmt 0 r) := by
+        have : totalWeight (valTok fmt p.1 :: xtrim fmt flush 0 r) = 1 + totalWeight (xtrim fmt flush 0 r) := by
           simp [totalWeight, hw1]
         rw [this]
         simp only [List.length_cons]
@@ -469,20 +495,20 @@ point tokens in their printed form) **and the same default flags**: embedded def
 come back from `n*`, trailing ones from the premature end of the record.
 `htrail`: an item of size ALL must not end in defaulted values (the writer drops them and
 the parser cannot know how many there were) unless it is empty. -/
-theorem parse_write_tokens (cv : Conv) (fmt : Bytes → Bytes) (items : List Item) (r : List Vals)
+theorem parse_write_tokens (cv : Conv) (fmt : Bytes → Bytes) (flush : Bool) (items : List Item) (r : List Vals)
     (hc : Conf cv fmt items r) (hlen : r.flatten.length ≤ 2147483647)
-    (htrail : pend 0 r.flatten = 0 ∨ r.flatten.length ≤ singlePrefix items) :
-    parseItems cv items (emitToks fmt 0 r.flatten) = some (r.map (·.map (normP fmt))) := by
+    (htrail : pend flush 0 r.flatten = 0 ∨ r.flatten.length ≤ singlePrefix items) :
+    parseItems cv items (emitToks fmt flush 0 r.flatten) = some (r.map (·.map (normP fmt))) := by
   have hraw := conf_raw cv fmt items r hc
   have hplain := conf_plain cv fmt items r hc
-  have h1 := parseItems_emitToks_xtrim cv fmt items hraw r.flatten 0 [] (by omega)
+  have h1 := parseItems_emitToks_xtrim cv fmt flush items hraw r.flatten 0 [] (by omega)
   simp only [List.nil_append] at h1
   rw [h1]
-  obtain ⟨hs, hw⟩ := xtrim_simple_weight fmt r.flatten 0 hplain
-  have h2 := expanded_eq_xtrim fmt r.flatten 0
+  obtain ⟨hs, hw⟩ := xtrim_simple_weight fmt flush r.flatten 0 hplain
+  have h2 := expanded_eq_xtrim fmt flush r.flatten 0
   simp only [List.replicate_zero, List.nil_append] at h2
-  have h3 : parseItems cv items (xtrim fmt 0 r.flatten ++ List.replicate (pend 0 r.flatten) oneStar) =
-      parseItems cv items (xtrim fmt 0 r.flatten) := by
+  have h3 : parseItems cv items (xtrim fmt flush 0 r.flatten ++ List.replicate (pend flush 0 r.flatten) oneStar) =
+      parseItems cv items (xtrim fmt flush 0 r.flatten) := by
     rcases htrail with h0 | hle
     · rw [h0]; simp
     · exact parseItems_trailing_default cv items hraw _ _ hs (by omega)
@@ -523,23 +549,23 @@ theorem evenQuotes_layout (split : Bool) : ∀ (ts : List Bytes) (rc : Nat),
 /-- **`parse_write_record`**: for every schema and every conforming record, parsing the
 text `DeckRecord::write` produces — with or without line splitting — returns the record,
 values and default flags. -/
-theorem parse_write_record (cv : Conv) (fmt : Bytes → Bytes) (split : Bool) (items : List Item)
+theorem parse_write_record (cv : Conv) (fmt : Bytes → Bytes) (flush split : Bool) (items : List Item)
     (r : List Vals) (hc : Conf cv fmt items r) (hlen : r.flatten.length ≤ 2147483647)
-    (htrail : pend 0 r.flatten = 0 ∨ r.flatten.length ≤ singlePrefix items)
-    (hat : ∀ t ∈ emitToks fmt 0 r.flatten, Atomic t ∧ evenQuotes t = true) :
-    parseRecord cv items (writtenRecordText fmt split r) 47 = some (r.map (·.map (normP fmt))) := by
+    (htrail : pend flush 0 r.flatten = 0 ∨ r.flatten.length ≤ singlePrefix items)
+    (hat : ∀ t ∈ emitToks fmt flush 0 r.flatten, Atomic t ∧ evenQuotes t = true) :
+    parseRecord cv items (writtenRecordText fmt flush split r) 47 = some (r.map (·.map (normP fmt))) := by
   unfold parseRecord rawRecord writtenRecordText
-  have he : evenQuotes (layout split 0 (emitToks fmt 0 r.flatten) ++ [32]) = true :=
+  have he : evenQuotes (layout split 0 (emitToks fmt flush 0 r.flatten) ++ [32]) = true :=
     evenQuotes_append _ _ (evenQuotes_layout split _ 0 (fun t ht => (hat t ht).2)) (by decide)
   simp only [he, ↓reduceIte, tokenize_layout_record split _ (fun t ht => (hat t ht).1) 47]
-  exact parse_write_tokens cv fmt items r hc hlen htrail
+  exact parse_write_tokens cv fmt flush items r hc hlen htrail
 
 theorem valTok_normVal (fmt : Bytes → Bytes) (hf : ∀ t, fmt (fmt t) = fmt t) (v : Val) :
     valTok fmt (normVal fmt v) = valTok fmt v := by
   cases v <;> simp [normVal, valTok, hf]
 
-theorem emitToks_norm (fmt : Bytes → Bytes) (hf : ∀ t, fmt (fmt t) = fmt t) :
-    ∀ (flat : Vals) (dc : Nat), emitToks fmt dc (flat.map (normP fmt)) = emitToks fmt dc flat := by
+theorem emitToks_norm (fmt : Bytes → Bytes) (flush : Bool) (hf : ∀ t, fmt (fmt t) = fmt t) :
+    ∀ (flat : Vals) (dc : Nat), emitToks fmt flush dc (flat.map (normP fmt)) = emitToks fmt flush dc flat := by
   intro flat
   induction flat with
   | nil => intro dc; rfl
@@ -553,14 +579,14 @@ theorem emitToks_norm (fmt : Bytes → Bytes) (hf : ∀ t, fmt (fmt t) = fmt t) 
 
 /-- **write fixpoint**: printing the re-parsed record prints the same bytes, provided
 re-reading a printed floating point token prints the same token. -/
-theorem write_fixpoint (fmt : Bytes → Bytes) (hf : ∀ t, fmt (fmt t) = fmt t) (split : Bool) (r : List Vals) :
-    writeRecord fmt split (r.map (·.map (normP fmt))) = writeRecord fmt split r := by
+theorem write_fixpoint (fmt : Bytes → Bytes) (hf : ∀ t, fmt (fmt t) = fmt t) (flush split : Bool) (r : List Vals) :
+    writeRecord fmt flush split (r.map (·.map (normP fmt))) = writeRecord fmt flush split r := by
   unfold writeRecord writtenRecordText
   have : (r.map (·.map (normP fmt))).flatten = r.flatten.map (normP fmt) := by
     induction r with
     | nil => rfl
     | cons a r ih => simp only [List.map_cons, List.flatten_cons, List.map_append, ih]
-  rw [this, emitToks_norm fmt hf]
+  rw [this, emitToks_norm fmt flush hf]
 
 /-! ## the hypotheses are met by integers and quote-free strings -/
 
